@@ -4,6 +4,7 @@ import Gallia.Proofs.Lemmas.RandomizeDict
 import Gallia.Proofs.Lemmas.RandomizeSpec
 import Gallia.Proofs.Lemmas.PySet
 import Gallia.Proofs.Lemmas.RandomizePy
+import Gallia.Proofs.Lemmas.RandomizePrefix
 import Gallia.Gen.C16Tables
 /-
   C16 — a random virtual ECU is fully determined by its seed and arguments; its model is well-formed.
@@ -198,6 +199,16 @@ theorem determinism (p p' : Params) (draws draws' : Nat → Bool) (choice choice
   have e2 : choice = choice' := funext hc
   subst hp e1 e2
   exact ⟨rfl, rfl⟩
+
+/-- finite dependence: the run reads the draw stream only below the number of draws it reports and the choice stream
+    only below the number of choices it reports.  Two generators whose streams agree on that prefix - at every call
+    site, whatever they return afterwards - produce the same model, the same counters and the same set orders.  The
+    recorded-draw replay of the harness feeds exactly this prefix, so it determines the model completely. -/
+theorem determinism_prefix (tb : Tables) (p : Params) (draw draw' : Nat → Thr → Bool) (choice choice' : Nat → Nat)
+    (hd : ∀ i, i < (randomizePyGen tb p draw choice).draws → ∀ k, draw i k = draw' i k)
+    (hc : ∀ j, j < (randomizePyGen tb p draw choice).choices → choice j = choice' j) :
+    randomizePyGen tb p draw' choice' = randomizePyGen tb p draw choice :=
+  randomizePyGen_prefix tb p draw draw' choice choice' hd hc
 
 /-- ... and the oracle model reproduces it from *any* order oracle that tells the truth about CPython's sets: the
     recorded-order replay of the harness and the order-free replay must agree -/
@@ -394,6 +405,25 @@ example :
     (randomize ⟨[1], [9, 17, 2], [0x10], []⟩ (fun i => decide (0 < i ∧ i < 4)) (fun _ => 0)).map (·.1) =
       [1, 2, 9, 17] := by
   decide +kernel
+
+/-- `determinism_prefix` at work: this run consumes 16 draws and no choice; any stream with the same first 16 draws
+    (here: one that answers `true` for ever after) gives the same result -/
+example :
+    (randomizePyGen isoTables ⟨[1], [9, 17, 2], [0x10], []⟩ (fun i _ => decide (0 < i ∧ i < 4)) (fun _ => 0)).draws = 16 ∧
+    randomizePyGen isoTables ⟨[1], [9, 17, 2], [0x10], []⟩ (fun i _ => decide ((0 < i ∧ i < 4) ∨ 16 ≤ i)) (fun _ => 7) =
+      randomizePyGen isoTables ⟨[1], [9, 17, 2], [0x10], []⟩ (fun i _ => decide (0 < i ∧ i < 4)) (fun _ => 0) := by
+  have h16 : (randomizePyGen isoTables ⟨[1], [9, 17, 2], [0x10], []⟩ (fun i _ => decide (0 < i ∧ i < 4))
+      (fun _ => 0)).draws = 16 := by decide +kernel
+  have h0 : (randomizePyGen isoTables ⟨[1], [9, 17, 2], [0x10], []⟩ (fun i _ => decide (0 < i ∧ i < 4))
+      (fun _ => 0)).choices = 0 := by decide +kernel
+  refine ⟨h16, determinism_prefix _ _ _ _ _ _ ?_ ?_⟩
+  · intro i hi k
+    rw [h16] at hi
+    have : ¬ 16 ≤ i := by omega
+    simp [this]
+  · intro j hj
+    rw [h0] at hj
+    omega
 
 example (draws : Nat → Bool) (choice : Nat → Nat) :
     let m := randomize ⟨[5, 0x60], [2, 3], [0x10, 0x3E], [0x22, 0x27]⟩ draws choice
